@@ -189,44 +189,33 @@ Section FoldsP.
   Variable fr : option A -> B -> option B.
 
   Lemma foldl_aux_app l : forall pre acc,
-    (In None l -> forall a, fl a None = None) ->
     foldl_aux fl (pre ++ l) (length l) (length pre) acc = foldl_impl fl l acc.
   Proof.
-    induction l as [|t r IH]; intros pre acc S; [reflexivity|].
+    induction l as [|t r IH]; intros pre acc; [reflexivity|].
     cbn [length foldl_aux foldl_impl]. rewrite nth_error_app_pre.
-    destruct t as [v|].
-    - cbn [bind]. destruct (fl acc (Some v)) as [a|]; [|reflexivity]. cbn [bind].
-      rewrite app_cons_assoc, <- (length_snoc pre (Some v)). apply IH. intros I. apply S. right. exact I.
-    - rewrite S by (left; reflexivity). reflexivity.
+    destruct (fl acc t) as [a|]; [|reflexivity]. cbn [bind].
+    rewrite app_cons_assoc, <- (length_snoc pre t). apply IH.
   Qed.
-  Lemma foldl_general l acc :
-    (In None l -> forall a, fl a None = None) -> foldl_impl fl l acc = foldl_spec fl l acc.
-  Proof. intros S. symmetry. apply (foldl_aux_app l [] acc S). Qed.
+  Lemma foldl_general l acc : foldl_impl fl l acc = foldl_spec fl l acc.
+  Proof. symmetry. apply (foldl_aux_app l [] acc). Qed.
 
-  Definition rstep (o : option B) (t : option A) : option B := a <- o ;; v <- t ;; fr (Some v) a.
+  Definition rstep (o : option B) (t : option A) : option B := a <- o ;; fr t a.
   Lemma fold_left_rstep_none l : fold_left rstep l None = None.
   Proof. induction l; [reflexivity|exact IHl]. Qed.
   Lemma foldr_aux_app l : forall post acc,
-    (In None l -> forall a, fr None a = None) ->
     foldr_aux fr (l ++ post) (length l) acc = fold_left rstep (rev l) (Some acc).
   Proof.
-    induction l as [|t l IH] using rev_ind; intros post acc S; [reflexivity|].
+    induction l as [|t l IH] using rev_ind; intros post acc; [reflexivity|].
     rewrite length_snoc, rev_app_distr. cbn [rev app foldr_aux fold_left].
     rewrite <- app_assoc. cbn [app]. rewrite nth_error_app_pre.
-    assert (S' : In None l -> forall a, fr None a = None).
-    { intros I. apply S. apply in_or_app. left. exact I. }
-    destruct t as [v|].
-    - cbn [rstep bind]. destruct (fr (Some v) acc) as [a|].
-      + cbn [bind]. apply (IH (Some v :: post) a S').
-      + cbn [bind]. rewrite fold_left_rstep_none. reflexivity.
-    - rewrite S by (apply in_or_app; right; left; reflexivity). cbn [rstep bind].
-      rewrite fold_left_rstep_none. reflexivity.
+    cbn [rstep bind]. destruct (fr t acc) as [a|].
+    - cbn [bind]. apply (IH (t :: post) a).
+    - cbn [bind]. rewrite fold_left_rstep_none. reflexivity.
   Qed.
-  Lemma foldr_general l acc :
-    (In None l -> forall a, fr None a = None) -> foldr_impl fr l acc = foldr_spec fr l acc.
+  Lemma foldr_general l acc : foldr_impl fr l acc = foldr_spec fr l acc.
   Proof.
-    intros S. unfold foldr_impl, foldr_spec. symmetry.
-    pose proof (foldr_aux_app l [] acc S) as H. rewrite app_nil_r in H. exact H.
+    unfold foldr_impl, foldr_spec. symmetry.
+    pose proof (foldr_aux_app l [] acc) as H. rewrite app_nil_r in H. exact H.
   Qed.
 
   Lemma has_failing_in (l : list (option A)) : has_failing l = false -> ~ In None l.
@@ -255,12 +244,10 @@ Section MapRevP.
     cbn [length seq map]. rewrite nth_error_app_pre. f_equal.
     rewrite app_cons_assoc, <- (length_snoc pre t). apply IH.
   Qed.
-  Lemma map_general (l : list (option A)) :
-    (In None l -> f None = None) -> map_impl f l = map_spec f l.
+  Lemma map_general (l : list (option A)) : map_impl f l = map_spec f l.
   Proof.
-    intros S. unfold map_spec, make_array. pose proof (map_aux_app l []) as M. cbn [app length] in M.
-    rewrite M. unfold map_impl.
-    apply map_ext_in. intros [v|] I; [reflexivity|]. cbn [bind]. symmetry. apply S. exact I.
+    unfold map_spec, make_array. pose proof (map_aux_app l []) as M. cbn [app length] in M.
+    rewrite M. reflexivity.
   Qed.
   Lemma reverse_impl_spec (l : list A) : reverse_impl l = reverse_spec l.
   Proof.
@@ -280,6 +267,67 @@ Section MapRevP.
     rewrite nth_error_app1 by lia. reflexivity.
   Qed.
 End MapRevP.
+
+(* ------------------------------------------------------------------ mapWithIndex / filter / filterMap / flatMap *)
+Section MapFilterFlatP.
+  Context {A B : Type}.
+  Variable fi : nat -> option A -> option B.
+  Variable f : option A -> option B.
+  Variable p : option A -> option bool.
+  Variable ff : option A -> option (option (list (option B))).
+
+  Lemma mapi_aux_app (l : list (option A)) : forall pre,
+    map (fun i => match nth_error (pre ++ l) i with Some t => fi i t | None => None end)
+        (seq (length pre) (length l))
+    = mapi_impl fi (length pre) l.
+  Proof.
+    induction l as [|t r IH]; intros pre; [reflexivity|].
+    cbn [length seq map mapi_impl]. rewrite nth_error_app_pre. f_equal.
+    rewrite app_cons_assoc, <- (length_snoc pre t). apply IH.
+  Qed.
+  Lemma mapi_impl_spec l : mapi_impl fi 0 l = mapi_spec fi l.
+  Proof. symmetry. apply (mapi_aux_app l []). Qed.
+
+  Lemma filter_eager_ok l :
+    match filter_eager p l with
+    | EOk out => filter_strict p l = Some out
+    | EErr => filter_strict p l = None
+    | EBreak => True
+    end.
+  Proof.
+    induction l as [|t r IH]; [reflexivity|]. cbn [filter_eager filter_strict].
+    destruct t as [v|]; [|exact I]. destruct (p (Some v)) as [b|]; [|reflexivity]. cbn [bind].
+    destruct (filter_eager p r); [exact I|rewrite IH; reflexivity|rewrite IH; reflexivity].
+  Qed.
+  Lemma filter_impl_spec l : filter_impl p l = filter_spec p l.
+  Proof.
+    unfold filter_impl, filter_spec. pose proof (filter_eager_ok l) as H.
+    destruct (filter_eager p l); [reflexivity|symmetry; exact H|symmetry; exact H].
+  Qed.
+  Lemma filter_map_impl_spec l : filter_map_impl f p l = filter_map_spec f p l.
+  Proof.
+    unfold filter_map_impl, filter_map_spec. rewrite filter_impl_spec.
+    destruct (filter_spec p l); [|reflexivity]. cbn [bind]. rewrite map_general. reflexivity.
+  Qed.
+
+  Lemma flatten_strict_map l : forall a,
+    returns_null ff l = false ->
+    flatten_strict (map ff l) a = (r <- flatmap_impl ff l ;; Some (a ++ r)).
+  Proof.
+    unfold returns_null. induction l as [|t r IH]; intros a H.
+    - cbn. rewrite app_nil_r. reflexivity.
+    - cbn [existsb] in H. apply orb_false_iff in H. destruct H as [H1 H2].
+      cbn [map flatten_strict flatmap_impl]. destruct (ff t) as [[b|]|]; [|discriminate|reflexivity].
+      cbn [bind]. rewrite (IH (a ++ b) H2). destruct (flatmap_impl ff r); [|reflexivity]. cbn [bind].
+      rewrite app_assoc. reflexivity.
+  Qed.
+  Lemma flatmap_restricted l : returns_null ff l = false -> flatmap_impl ff l = flatmap_spec ff l.
+  Proof.
+    intros H. unfold flatmap_spec, make_array.
+    pose proof (map_aux_app ff l []) as M. cbn [app length] in M. rewrite M.
+    rewrite (flatten_strict_map l [] H). destruct (flatmap_impl ff l); reflexivity.
+  Qed.
+End MapFilterFlatP.
 
 (* ------------------------------------------------------------------ minArray / maxArray *)
 Section Top1P.
@@ -341,6 +389,12 @@ Proof.
   destruct cmp_laws_ctot as [AS _]. specialize (AS k k). destruct (ctot k k); try reflexivity; discriminate.
 Qed.
 
+Lemma lflat_never_null g l : returns_null (lflat g) l = false.
+Proof.
+  unfold returns_null. induction l as [|t r IH]; [reflexivity|]. cbn [existsb]. rewrite IH.
+  destruct g, t as [v|]; reflexivity.
+Qed.
+
 Lemma lcalls_refine c : lknown c = 0 -> limpl c = lspec c.
 Proof.
   destruct c; cbn [lknown limpl lspec]; intros H.
@@ -351,12 +405,13 @@ Proof.
   - rewrite contains_impl_spec. reflexivity.
   - rewrite find_impl_spec. reflexivity.
   - rewrite remove_restricted; [reflexivity|]. destruct (err_after_match eqv l x); [discriminate|reflexivity].
-  - rewrite foldl_general; [reflexivity|]. intros I. exfalso.
-    destruct (has_failing l) eqn:E; [discriminate|]. exact (has_failing_in l E I).
-  - rewrite foldr_general; [reflexivity|]. intros I. exfalso.
-    destruct (has_failing l) eqn:E; [discriminate|]. exact (has_failing_in l E I).
-  - rewrite map_general; [reflexivity|]. intros I. exfalso.
-    destruct (has_failing l) eqn:E; [discriminate|]. exact (has_failing_in l E I).
+  - rewrite foldl_general. reflexivity.
+  - rewrite foldr_general. reflexivity.
+  - rewrite map_general. reflexivity.
+  - rewrite mapi_impl_spec. reflexivity.
+  - rewrite filter_impl_spec. reflexivity.
+  - rewrite filter_map_impl_spec. reflexivity.
+  - rewrite flatmap_restricted; [reflexivity|apply lflat_never_null].
   - rewrite reverse_impl_spec. reflexivity.
   - destruct (has_failing l) eqn:E; [discriminate|].
     destruct (first_key_incomparable (lkeyfn k) cmp_val l) eqn:F; [discriminate|].
@@ -393,32 +448,37 @@ Proof. exists [Some (VNum 1); None], (VNum 1). repeat split. Qed.
 
 Lemma folds_map_refine (A B C : Type) (fl : B -> option A -> option B) (fr : option A -> B -> option B)
       (f : option A -> option C) (l : list (option A)) (acc : B) :
-  has_failing l = false ->
   foldl_impl fl l acc = foldl_spec fl l acc /\
   foldr_impl fr l acc = foldr_spec fr l acc /\
   map_impl f l = map_spec f l.
-Proof.
-  intros H. pose proof (has_failing_in l H) as N.
-  repeat split; [apply foldl_general|apply foldr_general|apply map_general]; intros I; destruct (N I).
-Qed.
-Lemma folds_map_refine_strict (A B C : Type) (fl : B -> option A -> option B) (fr : option A -> B -> option B)
-      (f : option A -> option C) (l : list (option A)) (acc : B) :
-  (forall a, fl a None = None) -> (forall a, fr None a = None) -> f None = None ->
-  foldl_impl fl l acc = foldl_spec fl l acc /\
-  foldr_impl fr l acc = foldr_spec fr l acc /\
-  map_impl f l = map_spec f l.
-Proof.
-  intros H1 H2 H3. repeat split; [apply foldl_general|apply foldr_general|apply map_general]; auto.
-Qed.
-Lemma callback_forced_refuted :
+Proof. repeat split; [apply foldl_general|apply foldr_general|apply map_general]. Qed.
+(** historical: the loops as they were before 762ca42 / 9dc676b deviated *)
+Lemma callback_forced_old_refuted :
   exists (l : list (option val)) (init : val),
     has_failing l = true /\
-    foldl_impl (fun acc t => lapply2 L2Fst (Some acc) t) l init = None /\
+    foldl_impl_old (fun acc t => lapply2 L2Fst (Some acc) t) l init = None /\
     foldl_spec (fun acc t => lapply2 L2Fst (Some acc) t) l init = Some init /\
-    foldr_impl (fun t acc => lapply2 L2Snd t (Some acc)) l init = None /\
+    foldr_impl_old (fun t acc => lapply2 L2Snd t (Some acc)) l init = None /\
     foldr_spec (fun t acc => lapply2 L2Snd t (Some acc)) l init = Some init /\
-    map_impl (lapply FConst) l = [None] /\ map_spec (lapply FConst) l = [Some (VNum 7)].
+    map_impl_old (lapply FConst) l = [None] /\ map_spec (lapply FConst) l = [Some (VNum 7)].
 Proof. exists [None], (VNum 0). repeat split. Qed.
+(** still the case: array_top1 forces the element before keyF sees it *)
+Lemma top1_key_forced_refuted :
+  exists l : list (option val),
+    has_failing l = true /\ first_key_incomparable (lkeyfn (Some FConst)) cmp_val l = false /\
+    top1_impl (lkeyfn (Some FConst)) cmp_val Lt l None = None /\
+    top1_spec (lkeyfn (Some FConst)) cmp_val Gt l None = Some (VNum 1).
+Proof. exists [Some (VNum 1); None]. repeat split. Qed.
+
+Lemma mapi_filter_refine (A B : Type) (fi : nat -> option A -> option B) (f : option A -> option B)
+      (p : option A -> option bool) (l : list (option A)) :
+  mapi_impl fi 0 l = mapi_spec fi l /\
+  filter_impl p l = filter_spec p l /\
+  filter_map_impl f p l = filter_map_spec f p l.
+Proof. repeat split; [apply mapi_impl_spec|apply filter_impl_spec|apply filter_map_impl_spec]. Qed.
+Lemma flatmap_refine (A B : Type) (ff : option A -> option (option (list (option B)))) (l : list (option A)) :
+  returns_null ff l = false -> flatmap_impl ff l = flatmap_spec ff l.
+Proof. apply flatmap_restricted. Qed.
 
 Lemma reverse_refines (A : Type) (l : list A) :
   reverse_impl l = reverse_spec l /\ reverse_spec l = map (@Some A) (rev l).
@@ -464,6 +524,6 @@ Lemma lknown_refuted :
 Proof.
   repeat split.
   - exists (LMember [Some (VNum 1); None] (VNum 1)). split; [reflexivity|discriminate].
-  - exists (LFoldl L2Fst [None] (VNum 0)). split; [reflexivity|discriminate].
+  - exists (LMinArray [Some (VNum 1); None] (Some FConst) None). split; [reflexivity|discriminate].
   - exists (LMinArray [Some VNull] None None). split; [reflexivity|discriminate].
 Qed.
